@@ -121,6 +121,10 @@ def run(R: core.Run):
     bc.correspond(R, corpus, KEYS, True, "corpus", oracle)
     bc.correspond(R, histories(R, R.n(1200, 20000)), KEYS, True, "grid", oracle)
     bc.correspond(R, histories(R, R.n(300, 5000), offgrid=True), KEYS, False, "offgrid")
+    # the same API with the parameter names in lower case and / or the numbers as numpy scalars (names are case-insensitive by contract)
+    spelled = [["cfg " + R.rng.choice(["lower=1", "lower=1", "np=1", "lower=1 np=1"])] + h for h in histories(R, R.n(300, 5000))]
+    spelled.append(["cfg lower=1", "hotend 180", "halt wait-for-hotend S:210", "halt wait-for-chamber R:45", "bed 50", "halt wait-for-bed R:60 S:65"])
+    bc.correspond(R, spelled, KEYS, True, "lower-case-names/numpy-scalars", oracle)
     if R.broken:
         R.search_batches += 1
         for h in histories(R, R.n(1500, 5000)):
